@@ -130,14 +130,154 @@ claim(
 
 claim(
     "C09",
-    "Bounded model checking (Kani/CBMC) of the address-matching predicate every turmoil::net receive path relies on: for ALL IPv4 and "
-    "IPv6 (bind, destination) socket-address pairs `matches` is true exactly for a wildcard bind on the same port or an identical "
-    "address; multicast group membership (join / leave / leave_all) against a bitset reference.",
-    "Narrow claim: the receive filter in Udp::receive_from_network needs the tokio channel inside the bind table (send half works, but "
-    "the table with channels exceeds the memory cap together with the filter); routing by destination class, broadcast fan-out and "
-    "recv_from truncation need World/Topology (tokio runtime) and are outside this check.",
-    ["host::matches", "net::udp::MulticastGroups::{join, leave, leave_all, destination_addresses, contains_destination_address}"],
-    "Bounds: all 2^96 v4 pairs; v6 pairs with the destination equal to the bind address or ::1; 3 membership operations over 2 groups x 2 members.",
-    "UdpSocket::send routing, broadcast, loopback tasks, capacity overflow, origin address reporting, recv buffer truncation",
+    "Bounded model checking (Kani/CBMC) of the address-matching predicate every turmoil::net receive path (UDP receive filter, TCP "
+    "listener match) relies on: for ALL IPv4 (bind, destination) socket-address pairs and for IPv6 pairs `matches` is true exactly "
+    "for a wildcard bind on the same port or an identical address, and a v4 wildcard accepts any destination on its port.",
+    "NARROW CLAIM: only the match predicate. The receive filter with the connected-peer check and the bounded queue, routing by "
+    "destination class, broadcast fan-out, multicast membership (symbolic group/member keys exceeded the 8 GB cap) and recv_from "
+    "truncation need World/Topology (tokio runtime) or exceed the cap, and are outside this check.",
+    ["host::matches"],
+    "Bounds: all 2^96 v4 pairs; v6 pairs with the destination equal to the bind address or ::1, all ports; unwind 6-18.",
+    "UdpSocket::send routing, broadcast, multicast membership, loopback tasks, capacity overflow, origin address, truncation",
+    COMMON_ASSUME,
+)
+
+CORE_ASSUME = COMMON_ASSUME + [
+    "crates/turmoil is built against the tokio MODEL in /verif/models/tokio (functional mpsc / oneshot / Notify / Mutex, "
+    "Instant = duration since an origin with a harness-controlled clock; runtime, LocalSet, spawn, sleep are unimplemented!() "
+    "and unreachable from every harness)",
+    "rand_distr::Exp is modelled as an arbitrary non-negative finite f64 derived from one rng word; the world rng is a "
+    "generator whose every word is kani::any()",
+]
+
+claim(
+    "C03",
+    "Bounded model checking (Kani/CBMC) of the real link state machine (crates/turmoil/src/top.rs): for ALL 9 combinations of the two "
+    "direction states in the partition alphabet (Healthy / ExplicitPartition / RandPartition), symbolic rng words (every seed) and "
+    "fail/repair rates in {0, 0.5, 1}: (S1) the random fail/repair step never changes a direction that is explicitly partitioned; "
+    "(S2) a send across an explicitly partitioned direction is neither queued nor matured, whatever the coins; partition / "
+    "partition_oneway drop exactly the in-flight messages of the affected direction(s); (S3) with fail_rate 0 a send on a healthy "
+    "direction is in flight exactly once with a deliver-after instant inside the latency window; repair / repair_oneway make exactly "
+    "the named direction(s) healthy. These are one-step obligations whose invariant (explicit direction => state ExplicitPartition "
+    "and nothing of that direction queued) is re-established by every operation, which covers arbitrary interleavings of explicit "
+    "calls with the random process. The one-way-partition defect this found was repaired (known_findings.json F-C03-1).",
+    "World/Sim wrappers that resolve host sets by name or regex, TCP connect results across a partition and the hand-over to the "
+    "destination host are not executed.",
+    ["top::Link::rand_partition_or_repair", "top::Link::rand_partition", "top::Link::rand_repair", "top::Link::enqueue_message",
+     "top::Link::enqueue", "top::Link::get_state_for_message", "top::Link::process_deliverables", "top::Link::explicit_partition",
+     "top::Link::partition_oneway", "top::Link::explicit_repair", "top::Link::repair_oneway", "top::Link::delay"],
+    "Bounds: one link, queue of 0-2 in-flight datagrams with symbolic directions, one operation per harness; rates in {0,0.5,1}; unwind 4-5.",
+    "host-set resolution (for_pairs), hold/release mixed with one-way partitions (documented unsupported), sequences as such (covered inductively)",
+    CORE_ASSUME,
+)
+
+claim(
+    "C08",
+    "Bounded model checking (Kani/CBMC) of hold / release / tick / manual delivery on the real Link: a queue of 2-3 in-flight messages "
+    "(concrete direction pattern, symbolic deliver-after instants inside their due / not-due class): hold marks every message held "
+    "and a later tick delivers nothing; release + tick hands over exactly the held messages, each once, in send order per destination, "
+    "and leaves nothing behind; a plain tick matures exactly the due messages in order and keeps the rest; the link iterator shows the "
+    "in-flight messages in order with the right endpoints and SentRef::deliver schedules exactly the chosen message.",
+    "The hand-over from the link's deliverable queue to the destination host (Host::receive_from_network via World) and host-set "
+    "resolution by name/regex are not executed; VecDeque::remove is replaced by a semantically identical typed-move stub.",
+    ["top::Link::hold", "top::Link::release", "top::Link::tick", "top::Link::process_deliverables", "top::Sent::deliver",
+     "top::LinkIter::next", "top::LinkIter::pair", "top::SentRef::{pair, deliver}"],
+    "Bounds: 2-3 queued messages, one hold/release/tick sequence per harness, concrete due pattern per instance; unwind 5-6.",
+    "delivery into host sockets, TCP handshakes across a hold, unrelated links (separate Link values share no state by construction)",
+    CORE_ASSUME,
+)
+
+claim(
+    "C14",
+    "Bounded model checking (Kani/CBMC): (S1) Link::delay is inside [min,max] for EVERY non-negative finite sample of the latency "
+    "distribution and every min <= max (whole milliseconds < 2^32), with the per-link setting taking precedence over the global one "
+    "(IEEE-754 multiplication and float-to-integer conversion are bit-blasted); (S3) a message enqueued on a healthy link gets "
+    "deliver-after = link-now + delay and a tick moves it exactly when that instant is <= the new link time; (S4) messages that are "
+    "due together leave in queue (send) order and a not-yet-due message does not block a later due one.",
+    "The +-1 tick slack of the property comes from the relation between link time and the host clocks (Sim::step), which needs a "
+    "tokio runtime and is not encoded.",
+    ["top::Link::delay", "top::Link::enqueue", "top::Link::tick", "top::Link::process_deliverables", "config::Link::latency"],
+    "Bounds: min/max whole ms < 2^32 symbolic, sample any non-negative finite f64; 2-3 queued messages; unwind 4-6.",
+    "Sim::step time structure, distribution parameters (the sample is arbitrary in the model), 'every message is delivered' beyond maturity",
+    CORE_ASSUME,
+)
+
+claim(
+    "C05",
+    "Bounded model checking (Kani/CBMC) of the per-host clock algebra (HostTimer) against a harness-controlled tokio clock: for symbolic "
+    "registration offset, epoch base, two tick lengths and in-step progress, elapsed = sum of ticks + progress, sim_elapsed = offset + "
+    "elapsed, since_epoch = epoch + sim_elapsed, and the values are monotone across the step boundary.",
+    "NARROW CLAIM: that Sim::step ticks every registered host exactly once per step, that host code only observes times inside its step "
+    "window, timer firing instants and crash/bounce continuity live in Sim::step / Rt::tick, which need a tokio runtime and are NOT "
+    "covered. The check detects breakage of the clock algebra only.",
+    ["host::HostTimer::{new, tick, now, elapsed, sim_elapsed, since_epoch}"],
+    "Bounds: offsets and ticks in whole ms (u32 / u16), progress < 1 ms in ns, two steps; unwind 4.",
+    "Sim::step, Rt::tick, tokio timers, crash/bounce",
+    CORE_ASSUME,
+)
+
+claim(
+    "C12",
+    "Bounded model checking (Kani/CBMC) of the host-side connection tables of turmoil::net: a SYN is queued iff a listener is bound on "
+    "the destination port and its bind address matches the destination (for a symbolic destination address and source); otherwise the "
+    "request - and with it the connector's one-shot channel - is dropped, which is what the connector observes as ConnectionRefused; "
+    "accept returns queued requests in arrival order; unbinding the listener discards every queued request and frees the port; a "
+    "stream stays in the table until both halves are closed, or it is reset locally or by the peer, and segments for unknown streams "
+    "are answered with RST.",
+    "NARROW CLAIM: the async bodies of TcpStream::connect / TcpListener::accept (World, one-shot receive under an executor, the "
+    "'connector that gave up is skipped' loop, address mirroring) are not executed.",
+    ["host::Tcp::{bind, unbind, accept, receive_from_network, new_stream, stream_count, close_stream_half, reset_stream, is_port_assigned}",
+     "host::matches", "net::SocketPair::new"],
+    "Bounds: one listener (3 bind-address shapes), 1-2 queued requests, one stream; destination port concrete per instance, addresses symbolic; unwind 6.",
+    "connect/accept futures, partitions around the handshake (C03), tcp_capacity overflow panic",
+    CORE_ASSUME,
+)
+
+claim(
+    "C15",
+    "Bounded model checking (Kani/CBMC): the ephemeral port handed out by Host::assign_ephemeral_port is never one bound by a UDP "
+    "socket, a TCP listener or a live TCP stream (symbolic cursor and occupancy of a 4-port range, wrap-around included) and is the "
+    "first free port from the cursor; binding a port in use fails with AddrInUse per protocol while UDP and TCP listener spaces are "
+    "independent; a port is assignable again after its stream is closed/reset; the address iterator is injective for ALL counters "
+    "below 2^16 (IPv4) / 2^64 (IPv6) inside its subnet; names resolve to stable, pairwise distinct addresses with reverse lookup "
+    "inverting the mapping and literal addresses passing through.",
+    "Crash-time release (C04) and regex lookups (feature off) are not covered; IPv4 counters above 2^16 wrap inside the /16 (outside "
+    "'several hundred names').",
+    ["host::Host::assign_ephemeral_port", "host::Udp::{bind, is_port_assigned}", "host::Tcp::{bind, new_stream, is_port_assigned}",
+     "ip::IpVersionAddrIter::next", "dns::Dns::{lookup, reverse}", "dns::ToIpAddr for &str / Ipv4Addr"],
+    "Bounds: 4-port range, 0-3 occupied ports; address counters symbolic over the stated ranges; 3 names in symbolic order; unwind 6-18.",
+    "crash/bounce, regex, lookup_many",
+    CORE_ASSUME,
+)
+
+claim(
+    "C20",
+    "Bounded model checking (Kani/CBMC) of the barrier REGISTRY: with three live barriers whose conditions are symbolic (one matches "
+    "everything), a concrete dropped subset and a symbolic trigger value, the lookup returns the earliest-created live matching barrier "
+    "with its reaction, a trigger sent through the returned channel reaches exactly that barrier and no other, dropped barriers are "
+    "never returned, values of another type or without a live match are reported nowhere.",
+    "NARROW CLAIM (registry semantics only): Barrier::build / trigger / trigger_noop / Barrier::wait go through the BARRIERS "
+    "thread-local (a value with a destructor: Kani 0.68 ICEs on TLS destructor registration) and through channel receive under an "
+    "executor; exactly-once reporting in trigger order as seen by wait, Suspend/release and Panic propagation are NOT covered.",
+    ["barriers::BarrierRepo::{new, insert, drop, barrier}", "type-erased condition closure as built by Barrier::build"],
+    "Bounds: 3 barriers, 3 drop patterns, trigger values 0..3; unwind 18.",
+    "trigger/wait async paths, Suspend release, Panic reaction, filesystem corruption hook",
+    CORE_ASSUME,
+)
+
+claim(
+    "C13",
+    "Bounded model checking (Kani/CBMC) of close and reclamation on one connected turmoil-net socket: close with unread bytes sends a "
+    "RST (seq = snd_nxt, ack = rcv_nxt) and reclaims the socket at once; a clean close lingers with the FIN queued right behind the "
+    "buffered bytes, marks the handle gone and emits nothing itself; whenever an entry is reclaimed the socket, its binding and its "
+    "4-tuple index entry are all gone; lingering sockets are reaped by the end-of-egress sweep exactly when Closed / reset / timed "
+    "out and never while the handle is held; an inbound RST aborts the connection and every later read/write reports ConnectionReset.",
+    "NARROW CLAIM: the handshake side (accept_syn backlog, accept hands out each child once, listener teardown) needs two sockets "
+    "in one kernel, which exceeded the 8 GB cap; full close handshakes across two kernels are not executed. The leak of aborted "
+    "never-accepted children (DESIGN.md §4 #6) is therefore not decided by this check.",
+    ["kernel::Kernel::close", "kernel::tcp::on_close", "kernel::tcp::reap_closed", "kernel::tcp::abort_with",
+     "kernel::tcp::handle_on_connection (RST arm)", "kernel::socket::SocketTable::remove"],
+    "Bounds: one socket, buffers 0-2 bytes, states Established / CloseWait / FinWait1 / FinWait2 concrete per instance; unwind 4-6.",
+    "listener/child interplay, backlog, connect cancellation, 4-tuple reuse",
     COMMON_ASSUME,
 )
